@@ -123,7 +123,7 @@ def traces : P → List (String × List (Ev Nat)) × List Nat
   | .lss s => match s.st with
     | .uninit _ _ mk => ([("d0", mk.2)], [])
     | .thunk _ _ mk _ => ([("d0", mk.2)], [])
-    | .done _ d _ => ([("d0", d.2)], [])
+    | .done _ d _ _ => ([("d0", d.2)], [])
   | .lsrc _ => ([], [])
 
 def showEv : Ev Nat → String
